@@ -77,6 +77,14 @@ class Ctx:
         cmd = ["go", "build", "-tags", "verif", "-o", out]
         if race:
             cmd.insert(2, "-race")
+        alt = os.environ.get("VERIF_REPO")
+        if alt:
+            # self-test only: build against a scratch copy of the library (mutant testing in parallel)
+            mod = open(os.path.join(HARNESS, "go.mod")).read().replace("=> /repo", "=> " + alt.rstrip("/"))
+            mf = os.path.join(self.scratch, "alt.mod")
+            open(mf, "w").write(mod)
+            shutil.copy(os.path.join(HARNESS, "go.sum"), os.path.join(self.scratch, "alt.sum"))
+            cmd += ["-modfile", mf]
         cmd.append("./cmd/vh")
         t = time.time()
         p = subprocess.run(cmd, cwd=HARNESS, env=go_env(), capture_output=True, text=True)
